@@ -22,7 +22,8 @@ from . import key_driver as kd
 NOTOL = 99
 ALL_FLOATS = set(range(1, 15))
 ALL_OTHERS = {21, 22, 23, 24, 25, 26, 27}
-ALL_SHAPES = set(range(1, 22))
+ALL_SHAPES = set(range(1, 24))
+ALIAS_SHAPES = {22, 23}        # calls that contain equal containers: also made with ONE shared object in their place
 # per tolerance: floats that merge / tie at that tolerance, and a few non-floats (quick tier)
 QUICK_ALPHA = {
     None: ({2, 3}, {21, 23}),
@@ -93,7 +94,17 @@ def tlc_catalogue(consts, work):
 # trees <-> Python values
 # ---------------------------------------------------------------------------------------------
 
-def build(n):
+def build(n, memo=None):
+    """memo (a dict): equal container sub-trees of one call become one shared Python object"""
+    if memo is not None and n['t'] in ('list', 'tuple', 'dict', 'set', 'fset'):
+        k = json.dumps(n, sort_keys=True)
+        if k not in memo:
+            memo[k] = _build(n, memo)
+        return memo[k]
+    return _build(n, memo)
+
+
+def _build(n, memo=None):
     t = n['t']
     if t == 'float':
         return n['v'] / n['d']            # dyadic: exact
@@ -110,7 +121,7 @@ def build(n):
     if t == 'ipnet':
         import ipaddress
         return ipaddress.ip_network('10.0.0.0/%d' % n['v'])
-    kids = [build(c) for c in n['c']] if t != 'dict' else None
+    kids = [build(c, memo) for c in n['c']] if t != 'dict' else None
     if t == 'ntuple':
         return NT(*kids)
     if t == 'list':
@@ -125,7 +136,7 @@ def build(n):
         d = {}
         for it in n['c']:
             k = STR[it['v']] if it['d'] == 1 else int(it['v'])
-            d[k] = build(it['c'][0])
+            d[k] = build(it['c'][0], memo)
         return d
     raise ValueError(n)
 
@@ -224,15 +235,22 @@ def run_cached(klepto, group, cfg):
     classes = kd.Classes()
     fresh = [-1]
     events = []
-    for c in group['calls']:
+    calls = [(c, False) for c in group['calls']]
+    if cfg.get('alias'):
+        # every call twice: first with its equal containers being one shared object, then with separate equal objects
+        calls = [(c, al) for c in group['calls'] for al in (True, False)]
+    for c, aliased in calls:
+        def args_of():
+            memo = {} if aliased else None
+            return spell(cfg['form'], build(c[0], memo), build(c[1], memo))
         e = {'call': c, 'exc': 'none', 'kind': 'none', 'evals': 0, 'kc': -1, 'base': 'none', 'recv': []}
         # the same call without rounding: is it a valid call for this configuration at all?
-        a, k = spell(cfg['form'], build(c[0]), build(c[1]))
+        a, k = args_of()
         try:
             base(*a, **k)
         except Exception as ex:
             e['base'] = type(ex).__name__
-        a, k = spell(cfg['form'], build(c[0]), build(c[1]))
+        a, k = args_of()
         del RECV[:]
         if cached:
             i0 = f.info()
@@ -247,7 +265,7 @@ def run_cached(klepto, group, cfg):
             keyfn = f.key
         else:
             keyfn = f
-        a, k = spell(cfg['form'], build(c[0]), build(c[1]))
+        a, k = args_of()
         try:
             e['kc'] = classes.cls(keyfn(*a, **k))
             if not cached:
@@ -273,7 +291,8 @@ def run_standalone(klepto, group, cfg):
     f = dec(tol=cfg['tol'])(stub)
     events = []
     for c in group['calls']:
-        a, k = spell(cfg['form'], build(c[0]), build(c[1]))
+        memo = {} if cfg.get('alias') else None
+        a, k = spell(cfg['form'], build(c[0], memo), build(c[1], memo))
         e = {'call': c, 'exc': 'none', 'recv': []}
         del RECV[:]
         try:
@@ -375,16 +394,27 @@ def main(pid, tier):
                                 algs = [ALGS[(n + g['sh'] + len(jobs)) % len(ALGS)]]
                             for alg in algs:
                                 c = dict(tol=tol, deep=deep, enc=enc, mode=mode, form=form)
+                                if g['sh'] in ALIAS_SHAPES:
+                                    c['alias'] = True
                                 if alg:
                                     c['alg'] = alg
                                     if alg in ('lru', 'lfu', 'mru', 'rr') and (len(jobs) + g['sh']) % 2:
                                         c['maxsize'] = None
                                 jobs.append((g, c))
+            if g['sh'] == 1:
+                # spelling probes: top-level floats passed by keyword only / positionally, through every decorator class
+                for alg in ALGS:
+                    for mode in ('std', 'safe'):
+                        for form in ('allkw', 'kw', 'pos') if thorough else (('allkw', 'kw') if mode == 'std' else ('allkw',)):
+                            for deep in ((False, True) if thorough else (False,)):
+                                jobs.append((g, dict(tol=tol, deep=deep, enc='str', mode=mode, form=form, alg=alg)))
             for which in ('simple', 'shallow', 'deep'):
                 if which == 'shallow' and g['sh'] in TOP_DICT_SHAPES:
                     continue
                 for form in (['pos', 'kw'] if thorough else [['pos', 'kw'][(g['sh'] + len(which)) % 2]]):
                     jobs.append((g, dict(tol=tol, which=which, form=form)))
+                    if g['sh'] in ALIAS_SHAPES:
+                        jobs.append((g, dict(tol=tol, which=which, form=form, alias=True)))
     t0 = time.time()
     ctx = multiprocessing.get_context('fork')
     with ctx.Pool(common.NCPU) as pool:
